@@ -3,6 +3,10 @@ CONSTANTS
   Impl = "fixed"
   Kind = "sn"
   Temps = {500, 1000, 2000}
+  Hetero = FALSE
+  Part = "all"
+  Dims = {"features", "rf", "dilation", "dc"}
+  HOpts = {"temp", "hard", "gumbel", "disable"}
 INVARIANT TypeOK
 INVARIANT FrozenNeverTrainable
 INVARIANT FrozenNeverGrad
@@ -11,5 +15,8 @@ INVARIANT Partition
 INVARIANT NoDedupIsNotPartition
 PROPERTY TrainExact
 PROPERTY SetterExact
+PROPERTY LayerSetterExact
+PROPERTY SelExact
 PROPERTY OthersKept
+PROPERTY LocalUpdate
 PROPERTY ObserverNeutral
